@@ -61,6 +61,31 @@ def scenarios(flavour, n, max_edges, full_orders, queries=False):
                         'meta': {'seq': seq, 'members': list(members), 'n': n}}
 
 
+def history_scenarios(flavour, length):
+    """arbitrary short histories of edge operations on two bare nodes (removals and re-connections included), then the
+    handles are dropped in every order: whatever an operation leaves behind must not keep a node alive"""
+    n = 2
+    ops = []
+    for a in range(n):
+        ops.append(['isolate', a])
+        for b in range(n):
+            ops += [['connect', a, b, None], ['try_connect', a, b, None], ['disconnect', a, b]]
+    nodes = [[i, 100 + i] for i in range(n)]
+    for k in range(1, length + 1):
+        for hist in itertools.product(ops, repeat=k):
+            if hist[0][0] in ('disconnect', 'isolate'):
+                continue                      # nothing to remove yet: the same as the shorter history
+            pre = []
+            for j, o in enumerate(hist):
+                pre.append([o[0], o[1], o[2], {'s': f'e{j}'}] if o[0] in ('connect', 'try_connect') else list(o))
+            for order in ((0, 1), (1, 0)):
+                steps = pre + [['drops']]
+                for i in order:
+                    steps += [['drop', i], ['drops']]
+                yield (flavour, 'history', 'no-result'), {'flavour': flavour, 'nodes': nodes, 'steps': steps,
+                                                        'meta': {'seq': [o[:3] for o in hist], 'members': [], 'n': n}}
+
+
 def evaluate(prop, scen, obs, ctx):
     ab = abnormal(obs)
     if ab:
@@ -119,7 +144,9 @@ def run(prop, tier, seed):
         if tier == 'quick':
             items += list(scenarios(fl, 3, 3, False))
             items += list(scenarios(fl, 3, 2, False, queries=True))
+            items += list(history_scenarios(fl, 3))
         else:
+            items += list(history_scenarios(fl, 4))
             items += list(scenarios(fl, 3, 4, False))
             items += list(scenarios(fl, 3, 3, False, queries=True))
             items += list(scenarios(fl, 3, 2, True))
@@ -128,6 +155,7 @@ def run(prop, tier, seed):
         prop, tier, seed, items, evaluate, sig_of,
         bounds={'nodes': 3, 'max_edges': 3 if tier == 'quick' else 4,
                 'queries_before_drops': 'variants in which every degree / predicate / lookup query runs on every node before the drops (<=2 edges, thorough 3)', 'node_values': 'distinct, and all equal (value ties in priority-first frontiers) in the query variants', 'handles': '3 node handles, optional container (members {0,1} or all), optional kept result of bfs path / dfs search / dfs cycle / preorder nodes / postorder edges / pfs min path / pfs max search',
+                'histories_with_removals': 'every sequence of <=%d connect / try_connect / disconnect / isolate calls on two bare nodes, both drop orders' % (3 if tier == 'quick' else 4),
                 'drop_orders': 'rotations + reverse' if tier == 'quick' else 'rotations + reverse (<=4 edges), all permutations (<=2 edges)',
                 'outside': 'more handles per node; results of pfs and of filtered searches; drop during a running traversal'},
         assumptions=['Rc/Arc/Weak counting semantics as documented by std (strong/weak counts, value dropped when strong reaches 0)',
